@@ -4,7 +4,7 @@ Nothing here imports mpyc.  Everything is written from the textbook definitions 
 to be obviously right rather than fast.
 """
 
-from math import gcd, isqrt
+from math import gcd
 
 
 # ---------------------------------------------------------------- primes, small range
@@ -65,9 +65,10 @@ def factorize(x):
 
 # ---------------------------------------------------------------- Miller-Rabin (definition)
 
-MR_BASES = (2, 3, 5, 7, 11, 13, 17, 19, 23, 29, 31, 37)
-MR_LIMIT = 3317044064679887385961981   # smallest composite that is a strong pseudoprime to all 12 bases
-#                                        (Sorenson & Webster 2015); below it the 12 bases decide primality.
+MR_BASES = (2, 3, 5, 7, 11, 13, 17, 19, 23, 29, 31, 37, 41)
+MR_LIMIT = 3317044064679887385961981   # psi_13: smallest composite that is a strong pseudoprime to all 13 prime
+#                                        bases 2..41 (Sorenson & Webster 2015); below it the 13 bases decide primality.
+#                                        (psi_12 = 318665857834031151167461 passes the 12 bases 2..37; 41 exposes it.)
 
 
 def strong_probable_prime(x, a):
@@ -84,7 +85,7 @@ def strong_probable_prime(x, a):
 
 
 def is_prime_det(x):
-    """Deterministic primality for x < MR_LIMIT (about 3.3e24): small trial division, then the 12 fixed bases."""
+    """Deterministic primality for x < MR_LIMIT (about 3.3e24): small trial division, then the 13 fixed bases."""
     assert x < MR_LIMIT
     if x < 2:
         return False
@@ -111,13 +112,6 @@ def prev_prime_det(x):
 
 # Exponents j <= 1300 for which 2^j - 1 is prime (classical table, Mersenne .. Robinson 1952).
 MERSENNE_EXPONENTS = (2, 3, 5, 7, 13, 17, 19, 31, 61, 89, 107, 127, 521, 607, 1279)
-
-
-def mult_order(w, p):
-    """Multiplicative order of w modulo p by brute force on the divisors of p-1 via factorisation of the
-    candidate order: smallest n >= 1 with w^n = 1; returns None if w is not a unit.  Only for use when
-    the order is known to be small: walks n = 1, 2, ... up to `cap`."""
-    raise NotImplementedError
 
 
 def small_order(w, p, cap):
@@ -254,6 +248,3 @@ def ratrec_solutions(x, y, N, D):
                 out.append((n, d))
     return out
 
-
-__all__ = [n for n in dir() if not n.startswith('_')]
-assert isqrt(16) == 4
